@@ -29,6 +29,7 @@ import IgrisModel.C14.MachX
 import IgrisModel.C14.Access
 import IgrisModel.C14.Width
 import IgrisModel.C14.Lemmas3
+import IgrisModel.C14.LedgerX
 
 namespace Igris.C14
 open Igris.Proto
@@ -892,6 +893,44 @@ theorem erase_assignment_throw (trk : Bool) {N : Nat} {v : SVec} {es : List Elem
 
 example : (match eraseX true ⟨[.obj (some 1), .obj (some 2), .obj (some 3)], 3⟩ 0 1 1 with
     | .ok (w, _, true) => decide (w.contents = [some 2, none, some 3]) | _ => false) = true := by decide
+
+/-! ## the event-trace ledger over histories with throws -/
+
+/-- For EVERY history in which ANY operations throw at ANY of their element
+    constructions, the complete sequence of lifetime events (`runEvX`: what the
+    driver prints op by op, the events of failed calls and of the unwinding
+    destructor included) passes the ledger replay — no constructor event at a
+    live location, no destructor / assignment / move event at a dead one — and
+    ends with exactly the occupied slots of the final state. -/
+theorem sx_trace_passes_ledger (c : Cfg) (ops : List (Op × Nat)) :
+    ∃ m evs, runEvX c ops Mach.init = .ok (m, evs) ∧ runX c ops Mach.init = .ok m ∧
+      replayG evs (fun _ _ => false) = some (occR m.regs) := by
+  obtain ⟨m, evs, h1, _, h3⟩ := runEvX_replays ops _ _ (minv_init c)
+  rw [occR_init] at h3
+  exact ⟨m, evs, h1, runEvX_runX _ _ _ _ h1, h3⟩
+
+/-- EVERY ELEMENT CONSTRUCTED IS DESTROYED EXACTLY ONCE, also when constructors
+    throw: any history with failures followed by the destruction of all objects
+    replays from "nothing live" to "nothing live" -/
+theorem sx_every_element_destroyed_exactly_once (c : Cfg) (ops : List (Op × Nat)) :
+    ∃ m evs, runEvX c (ops ++ [(.finish, 0)]) Mach.init = .ok (m, evs) ∧
+      replayG evs (fun _ _ => false) = some (fun _ _ => false) := by
+  obtain ⟨m, evs, h1, h2, h3⟩ := runEvX_replays (c := c) (ops ++ [(.finish, 0)]) _ _ (minv_init c)
+  have e : specRunX c (ops ++ [(.finish, 0)]) (fun _ => none) = fun _ => none := by
+    rw [specRunX_append]; rfl
+  rw [e] at h2
+  have hn : occR m.regs = fun _ _ => false := by
+    funext r
+    have := h2.rel r
+    cases hm : m.regs r with
+    | none => simp [occR, hm]
+    | some v => rw [hm] at this; exact this.elim
+  rw [occR_init, hn] at h3
+  exact ⟨m, evs, h1, h3⟩
+
+/-- a copy constructor whose second copy throws: construct 1.0, destroy 1.0 — the replay passes and nothing is live -/
+example : (match runEvX ⟨2, 2, false, true⟩ [(.new 0, 9), (.push 0 1, 9), (.push 0 2, 9), (.copy 1 0, 1)] Mach.init with
+    | .ok (_, evs) => decide (evs = [⟨0, .ctor, 0⟩, ⟨0, .ctor, 1⟩, ⟨1, .ctor, 0⟩, ⟨1, .dtor, 0⟩]) | _ => false) = true := by decide
 
 /-! ## unbounded_array: never outside its block -/
 
